@@ -52,6 +52,11 @@ def run(chk):
             Bm = np.array(m1.basis_matrix_)
             a2 = [int(i) for i in fit_once(X, bcfg, ocfg, s2)[0].all_sensors]
             a1b = [int(i) for i in fit_once(X, bcfg, ocfg, s1)[0].all_sensors]
+            # the SAME object fitted again (seed 2, then seed 1 again): fitting twice must give the identical ranking
+            impl.quiet(m1.fit, X, seed=s2, quiet=True, **kws)
+            a2_same = [int(i) for i in m1.all_sensors]
+            impl.quiet(m1.fit, X, seed=s1, quiet=True, **kws)
+            a1_same = [int(i) for i in m1.all_sensors]
             r = [int(i) for i in impl.quiet(impl.make_optimizer(cfg2).fit, Bm.copy(), **kws).get_sensors()]
         except Exception as e:
             chk.count("rejected:" + impl.exc_class(e))
@@ -68,6 +73,8 @@ def run(chk):
             chk.violation("impl", "seed-changes-leading", f"leading {mm} sensors differ between seeds: {a1[:mm]} vs {a2[:mm]}", {**case, "observed": obs})
         if sorted(a1[mm:]) != sorted(a2[mm:]):
             chk.violation("impl", "seed-changes-tail-set", "set of trailing sensors differs between seeds", {**case, "observed": obs})
+        if a1_same != a1 or a2_same != a2:
+            chk.violation("impl", "refit-same-object-different-ranking", f"refitting the same object with the same seed gave {a1_same} (fresh {a1}) / {a2_same} (fresh {a2})", {**case, "observed": obs})
         if a1 != a1b:
             chk.violation("impl", "same-seed-different-ranking", f"same seed gave {a1} then {a1b}", {**case, "observed": obs})
         exprs.append(f"case_seed {mm} {C.cnatlist(r)} {C.cnatlist(t1)} {C.cnatlist(t2)} {C.cnatlist(a1)} {C.cnatlist(a2)} {C.cnatlist(a1b)}")
